@@ -317,9 +317,7 @@ class Binary:
                     pass
         out = (res.returncode, lines, res.stderr[-3000:])
         if self.mode == 'sched' and res.returncode in (0, 1):
-            with open(cpath + '.tmp', 'w', encoding='utf-8') as fh:
-                json.dump(list(out), fh)
-            os.replace(cpath + '.tmp', cpath)
+            lab._store(cpath, list(out))  # pylint: disable=protected-access
         return out
 
     def __exit__(self, *exc):
